@@ -87,3 +87,101 @@ impl DiffableStr for CStr {
         &self.0
     }
 }
+
+/// A second user-defined text type: equality, order and hash IGNORE ASCII CASE (lawful: equal values hash equally and
+/// compare `Equal`). Equal tokens need not be byte-identical here, so whatever compares or numbers tokens by their bytes
+/// instead of by `==`, or takes the value of an Equal change from the wrong side, shows.
+#[repr(transparent)]
+#[derive(Debug)]
+pub struct CiStr([u8]);
+
+#[derive(Debug, Clone)]
+pub struct CiString(Vec<u8>);
+
+impl CiStr {
+    pub fn new(b: &[u8]) -> &CiStr {
+        // SAFETY: `CiStr` is `repr(transparent)` over `[u8]`
+        unsafe { &*(b as *const [u8] as *const CiStr) }
+    }
+    pub fn bytes(&self) -> &[u8] {
+        &self.0
+    }
+    fn folded(&self) -> impl Iterator<Item = u8> + '_ {
+        self.0.iter().map(|b| b.to_ascii_lowercase())
+    }
+}
+impl PartialEq for CiStr {
+    fn eq(&self, o: &CiStr) -> bool {
+        self.0.len() == o.0.len() && self.folded().eq(o.folded())
+    }
+}
+impl Eq for CiStr {}
+impl PartialOrd for CiStr {
+    fn partial_cmp(&self, o: &CiStr) -> Option<std::cmp::Ordering> {
+        Some(self.cmp(o))
+    }
+}
+impl Ord for CiStr {
+    fn cmp(&self, o: &CiStr) -> std::cmp::Ordering {
+        self.folded().cmp(o.folded())
+    }
+}
+impl Hash for CiStr {
+    fn hash<H: Hasher>(&self, h: &mut H) {
+        for b in self.folded() {
+            b.hash(h);
+        }
+    }
+}
+impl Borrow<CiStr> for CiString {
+    fn borrow(&self) -> &CiStr {
+        CiStr::new(&self.0)
+    }
+}
+impl ToOwned for CiStr {
+    type Owned = CiString;
+    fn to_owned(&self) -> CiString {
+        CiString(self.0.to_vec())
+    }
+}
+fn wrap_ci(v: Vec<&[u8]>) -> Vec<&CiStr> {
+    v.into_iter().map(CiStr::new).collect()
+}
+impl DiffableStr for CiStr {
+    fn tokenize_lines(&self) -> Vec<&Self> {
+        wrap_ci(self.0.tokenize_lines())
+    }
+    fn tokenize_lines_and_newlines(&self) -> Vec<&Self> {
+        wrap_ci(self.0.tokenize_lines_and_newlines())
+    }
+    fn tokenize_words(&self) -> Vec<&Self> {
+        wrap_ci(self.0.tokenize_words())
+    }
+    fn tokenize_chars(&self) -> Vec<&Self> {
+        wrap_ci(self.0.tokenize_chars())
+    }
+    fn tokenize_unicode_words(&self) -> Vec<&Self> {
+        wrap_ci(self.0.tokenize_unicode_words())
+    }
+    fn tokenize_graphemes(&self) -> Vec<&Self> {
+        wrap_ci(self.0.tokenize_graphemes())
+    }
+    fn as_str(&self) -> Option<&str> {
+        std::str::from_utf8(&self.0).ok()
+    }
+    fn to_string_lossy(&self) -> Cow<'_, str> {
+        String::from_utf8_lossy(&self.0)
+    }
+    fn ends_with_newline(&self) -> bool {
+        self.0.ends_with_newline()
+    }
+    fn len(&self) -> usize {
+        self.0.len()
+    }
+    fn slice(&self, rng: Range<usize>) -> &Self {
+        CiStr::new(&self.0[rng])
+    }
+    fn as_bytes(&self) -> &[u8] {
+        &self.0
+    }
+}
